@@ -329,7 +329,7 @@ func c16Run(r *core.Run) {
 		}
 	}
 	methods := []string{"GET", "HEAD", "POST", "PUT", "get", "Head"}
-	r.Rule = "engine E: every request path of up to 3 (thorough 4) segments over {'', ., .., st, stx, pub, f.txt, d, e, h, secret.txt, index.html, %2e%2e, ..\\, f.txt+NUL, g.txt} with and without leading/trailing slash x methods {GET,HEAD,POST,PUT} x the option sets (5 prefix spellings x 2 index names, and every combination of ETag/Expires/CacheControl/index/io-fs FileSystem with 2-5 prefix spellings) x If-None-Match {absent, matching, other} over a real directory tree with files outside it; oracle = resolution model over an in-memory copy of the fixture + independent invariants (a 200 body is the content of a regular file inside the directory, no outside token ever appears, 'cannot serve' leaves exactly the rest of the chain's response); non-trivial = path containing '..', an empty segment, NUL, a prefix look-alike or a directory"
+	r.Rule = "engine E: every request path of up to 3 (thorough 4) segments over {'', ., .., st, stx, pub, f.txt, d, e, h, secret.txt, index.html, %2e%2e, ..\\, f.txt+NUL, g.txt} with and without leading/trailing slash x methods {GET,HEAD,POST,PUT,get,Head} x the option sets (5 prefix spellings x 2 index names, and every combination of ETag/Expires/CacheControl/index/io-fs FileSystem with 2-5 prefix spellings) x If-None-Match {absent, matching, other} over a real directory tree with files outside it; oracle = resolution model over an in-memory copy of the fixture + independent invariants (a 200 body is the content of a regular file inside the directory, no outside token ever appears, 'cannot serve' leaves exactly the rest of the chain's response); non-trivial = path containing '..', an empty segment, NUL, a prefix look-alike or a directory"
 	r.Bounds["paths"] = len(paths)
 	r.Bounds["option_sets"] = len(opts)
 	r.Bounds["methods"] = methods
